@@ -194,7 +194,11 @@ def _loads_xml(string):
 
     ud_dict = data["body"]["segment"]["data"].get("userDefinedParameters", {})
 
-    for field in ud_dict.get("USER_DEFINED", []):
+    ud_fields = ud_dict.get("USER_DEFINED", [])
+    if not isinstance(ud_fields, list):
+        ud_fields = [ud_fields]
+
+    for field in ud_fields:
         ud = orb._data.setdefault("ccsds_user_defined", {})
         ud[field.attrib["parameter"]] = field.text
 
